@@ -38,6 +38,7 @@ type specExpr struct {
 type Contract struct {
 	ErrOrigin           string       // module whose errors the function returns (trusted contracts of wrappers around a library)
 	Peel                map[int]bool // loops (by ordinal) whose first iteration is executed before the cut
+	Covers              []*Clause    // loop#k covers <slice>: the loop ranges over the whole of that slice and is not left early
 	Key                 string       // package-local key as written
 	Full                string       // ssa function name
 	Props               []string
@@ -104,6 +105,7 @@ type SpecDB struct {
 	Pure         map[string]bool         // extern static callees with no side effects
 	SeqDefs      map[string]*SeqDef      // definitions of uninterpreted functions that hold in sequence mode only
 	ReadonlyArgs map[string]map[int]bool // extern callees: argument positions whose reachable memory is never written
+	RetainsArgs  map[string]map[int]bool // extern callees: argument positions whose memory the result may share
 	Files        []string
 	Errors       []string
 	UFs          map[string][]string // name -> arg sorts..., result sort
@@ -134,7 +136,7 @@ type SeqDef struct {
 }
 
 func NewSpecDB() *SpecDB {
-	return &SpecDB{Contracts: map[string]*Contract{}, Fns: map[string]*SpecFn{}, Iface: map[string]string{}, Pure: map[string]bool{}, ReadonlyArgs: map[string]map[int]bool{}, SeqDefs: map[string]*SeqDef{}, UFs: map[string][]string{}, GhostPreds: map[string]string{}, GhostVars: map[string]bool{}}
+	return &SpecDB{Contracts: map[string]*Contract{}, Fns: map[string]*SpecFn{}, Iface: map[string]string{}, Pure: map[string]bool{}, ReadonlyArgs: map[string]map[int]bool{}, RetainsArgs: map[string]map[int]bool{}, SeqDefs: map[string]*SeqDef{}, UFs: map[string][]string{}, GhostPreds: map[string]string{}, GhostVars: map[string]bool{}}
 }
 
 var tagRe = regexp.MustCompile(`^\[([^\]]*)\]\s*`)
@@ -445,6 +447,25 @@ func (db *SpecDB) LoadSpecFile(path, pkgPath string) {
 				}
 				db.ReadonlyArgs[f[0]][n] = true
 			}
+		case word == "retainsarg":
+			// retainsarg <external function> <index>...: what the call returns or writes may share memory with these
+			// arguments (a decoder that does not copy byte fields); see discipline retained-buffers-are-not-recycled
+			f := strings.Fields(rest)
+			if len(f) < 2 {
+				fail("retainsarg syntax: retainsarg <function> <index>...")
+				continue
+			}
+			if db.RetainsArgs[f[0]] == nil {
+				db.RetainsArgs[f[0]] = map[int]bool{}
+			}
+			for _, x := range f[1:] {
+				n, err := strconv.Atoi(x)
+				if err != nil {
+					fail("retainsarg: bad index " + x)
+					continue
+				}
+				db.RetainsArgs[f[0]][n] = true
+			}
 		case word == "seqdef":
 			// seqdef name(p1,p2,...) = expr   (expr over the parameters, cat, le64, ...)
 			i := strings.Index(rest, "(")
@@ -518,6 +539,12 @@ func (db *SpecDB) LoadSpecFile(path, pkgPath string) {
 			}
 			if cur.Discipline == nil {
 				cur.Discipline = map[string][]string{}
+			}
+			switch strings.TrimSpace(body) {
+			case "walkers-drained", "locks-released", "no-graph-write-while-walking", "goroutines-own-their-loop-variables", "retained-buffers-are-not-recycled":
+			default:
+				fail("unknown discipline: " + strings.TrimSpace(body))
+				continue
 			}
 			cur.Discipline[strings.TrimSpace(body)] = props
 		case word == "effect" || word == "defines":
@@ -617,8 +644,22 @@ func (db *SpecDB) LoadSpecFile(path, pkgPath string) {
 				cur.Peel[n] = true
 				continue
 			}
+			if w2 == "covers" {
+				// loop#k covers [props:label] <slice expr>: see covers.go
+				props, label, body := parseTag(r2)
+				se, err := parseSpecExpr(body)
+				if err != nil {
+					fail(err.Error())
+					continue
+				}
+				if props == nil {
+					props = cur.Props
+				}
+				cur.Covers = append(cur.Covers, &Clause{Kind: "covers", Label: label, Props: props, Src: body, Expr: *se, Loop: n, Line: where})
+				continue
+			}
 			if w2 != "invariant" {
-				fail("expected 'invariant' or 'peel'")
+				fail("expected 'invariant', 'covers' or 'peel'")
 				continue
 			}
 			props, label, body := parseTag(r2)
